@@ -31,7 +31,6 @@ type rel struct {
 	raw     [3]bool // the three *WithoutEquality* relations (only evaluated when !eq)
 	r       [3]bool // full relations: eq||hand-written, interpreter.IsSubType, IsSubTypeOfSemaType
 	panicAt string
-	ft1     bool // generated static relation skipped (known finding FT1)
 	ft2     bool // run-time/checker disagreement matching known finding FT2
 }
 
@@ -45,18 +44,6 @@ var relNames = [3]string{
 	"sema.IsSubTypeWithoutComparison",
 	"interpreter.IsSubType",
 	"interpreter.IsSubTypeOfSemaType",
-}
-
-// knownFT1 is set when finding FT1 is listed as known: the generated static
-// relation panics on two different InclusiveRange<T> types at the root
-// (InclusiveRangeStaticType{}.Equal dereferences the nil element type of the
-// base type). Only that one relation is skipped for such pairs.
-var knownFT1 bool
-
-func ft1(ss, st interpreter.StaticType) bool {
-	a, ok1 := ss.(interpreter.InclusiveRangeStaticType)
-	b, ok2 := st.(interpreter.InclusiveRangeStaticType)
-	return ok1 && ok2 && a.ElementType != nil && b.ElementType != nil && !a.ElementType.Equal(b.ElementType)
 }
 
 // knownFT2 is set when finding FT2 is listed as known. Root cause: the checker's
@@ -99,12 +86,7 @@ func relations(u *tgen.Universe, s, t sema.Type) (out rel) {
 			step = rawNames[1]
 			out.raw[1] = sema.CheckSubTypeWithoutEquality_gen(s, t)
 			step = rawNames[2]
-			if knownFT1 && ft1(ss, st) {
-				out.ft1 = true
-				out.raw[2] = out.raw[0]
-			} else {
-				out.raw[2] = interpreter.CheckSubTypeWithoutEquality_gen(u.Inter, ss, st)
-			}
+			out.raw[2] = interpreter.CheckSubTypeWithoutEquality_gen(u.Inter, ss, st)
 		}
 		step = relNames[0]
 		out.r[0] = sema.IsSubTypeWithoutComparison(s, t)
@@ -222,9 +204,6 @@ func (c *c08) checkPair(u *tgen.Universe, s, t sema.Type, mode string) rel {
 	nt := nontrivialPair(s, t, r)
 	c.rec.CaseH(nt, evid.Hash("p", u.Seed, s.ID(), t.ID()))
 	c.pairs++
-	if r.ft1 {
-		c.rec.Excluded("FT1")
-	}
 	if r.ft2 {
 		c.rec.Excluded("FT2")
 	}
@@ -311,12 +290,6 @@ func TestC08(t *testing.T) {
 		"Non-trivial pair: not Equal and one side has depth >= 2 or is a reference/intersection/function; non-trivial triple: both premises hold "+
 		"with no two adjacent types Equal. Distinct by (universe, ID(S), ID(T)[, ID(U)]).")
 	c := &c08{t: t, rec: rec}
-	if rec.Known("FT1") {
-		u0 := tgen.NewUniverse(0)
-		a, b := sema.NewInclusiveRangeType(nil, sema.Int16Type), sema.NewInclusiveRangeType(nil, sema.IntegerType)
-		rec.ReportKnown("FT1", relations(u0, a, b).panicAt != "")
-		knownFT1 = true
-	}
 	if rec.Known("FT2") {
 		arrNever := sema.NewVariableSizedType(nil, sema.NeverType)
 		arrR := sema.NewVariableSizedType(nil, tgen.NewUniverse(0).Resources[0])
@@ -346,6 +319,14 @@ func TestC08(t *testing.T) {
 		}
 		c.checkPair(u, s, ty, "replay")
 		return
+	}
+
+	// regression inputs of fixed findings (FT1: the generated static relation used to
+	// panic on two different InclusiveRange<T> types) are always evaluated
+	{
+		u0 := tgen.NewUniverse(0)
+		c.checkPair(u0, sema.NewInclusiveRangeType(nil, sema.Int16Type), sema.NewInclusiveRangeType(nil, sema.IntegerType), "regression")
+		c.checkPair(u0, sema.NewInclusiveRangeType(nil, sema.IntegerType), sema.NewInclusiveRangeType(nil, sema.Int16Type), "regression")
 	}
 
 	seeds := universeSeeds(evid.N(2, 6))
